@@ -502,9 +502,10 @@ GLUE_Z = ("data, loc_method='median', scale_method='mad', axis=0", [
     "if data.size == 0:\n    msg = 'Cannot estimate Z-scores from an empty array.'\n    raise ValueError(msg)",
     "loc = np.zeros(1, dtype=data.dtype) if loc_method == 'norm' else estimate_loc(data, loc_method, axis, keepdims=True)",
     "scale = np.ones(1, dtype=data.dtype) if scale_method == 'norm' else estimate_scale(data, scale_method, axis, keepdims=True)",
-    "zero_scales = np.isclose(scale, 0)",
-    "if np.any(zero_scales):\n    scale = np.where(zero_scales, 1, scale)",
     "zscores = np.subtract(data, loc, dtype=np.float32)",
+    "tiny = np.finfo(np.float32).eps * np.max(np.abs(zscores), axis=axis, keepdims=True)",
+    "zero_scales = scale <= tiny",
+    "if np.any(zero_scales):\n    scale = np.where(zero_scales, 1, scale)",
     "np.divide(zscores, scale, out=zscores)",
     "return ZScoreResult(data=zscores, loc=np.asarray(loc), scale=np.asarray(scale))",
 ])
@@ -519,9 +520,10 @@ Definition estimate_zscore (data : nd) (loc_method_ : loc_method) (scale_method_
     | None => None
     | Some scale =>
         let scale := memo scale in
-        let zero_scales := memo (np_isclose0 scale) in
-        let scale := if np_any zero_scales then memo (np_where zero_scales (scalar (qz 1)) scale) else scale in
         let zscores := memo (np_sub data loc) in
+        let tiny := memo (np_mul (scalar float32_eps) (np_reduce max1 (np_abs zscores) axis true)) in
+        let zero_scales := memo (np_le scale tiny) in
+        let scale := if np_any zero_scales then memo (np_where zero_scales (scalar (qz 1)) scale) else scale in
         let zscores := memo (np_div zscores scale) in
         Some (zscores, loc, scale)
     end
